@@ -83,13 +83,56 @@ def plan(tier, seed):
     if tier == "thorough":
         cli += [("call", 1, "id"), ("call", 3, "id"), ("call-exact", 1, "id"), ("call-exact", 2, "id"), ("assemble", 3, "fail")]
     jobs.append(("cli", tuple(cli), seed, 10 ** 7))
+    for prog in ("assemble", "call", "call-exact", "call-pedigree"):
+        jobs.append(("heap", prog, seed, 50000))
     jobs.sort(key=lambda j: -j[-1])
     return jobs
 
 
 def run_job(job):
     env.quiet()
-    return {"sched": job_sched, "split": job_split, "hist": job_hist, "order": job_order, "cli": job_cli}[job[0]](job)
+    return {"sched": job_sched, "split": job_split, "hist": job_hist, "order": job_order, "cli": job_cli, "heap": job_heap}[job[0]](job)
+
+
+def job_heap(job):
+    """the records of one run, every optional field reported, must not depend on what the process' allocator holds from earlier work: the same program is run
+    after the small-block caches were filled with three different garbage patterns (an output array allocated without initialisation shows here)"""
+    from .. import stddata
+    import mchap.io.vcf.infofields as INFO
+    import mchap.io.vcf.formatfields as FORMAT
+
+    _, prog, seed, _ = job
+    r = Result()
+    payload = {"kind": "job", "job": job}
+    D = stddata.Data(env.scratch_dir("c08h"))
+    report = ["FORMAT/" + f.id for f in FORMAT.OPTIONAL_FIELDS] + ["INFO/" + f.id for f in INFO.OPTIONAL_FIELDS]
+    if prog == "assemble":
+        argv = D.assemble_args(report=report, extra=["--mcmc-seed", "3"])
+    else:
+        hv = D.save_vcf(stddata.run(D.assemble_args()), "in.vcf")
+        argv = D.call_args(prog, hv, report=report, extra=(["--mcmc-seed", "3"] if prog != "call-exact" else []) + (D.pedigree_files() if prog == "call-pedigree" else []))
+    outs = []
+    real_dirty = env.dirty_heap
+    for value in (0.4375, 0.8125, 0.0):
+        env.dirty_heap = (lambda v=value: real_dirty(v))  # stddata.run() poisons the heap right before the program starts
+        try:
+            outs.append(stddata.records(stddata.run(argv)))
+        finally:
+            env.dirty_heap = real_dirty
+        env.quiet()
+        r.evaluations += 1
+        r.nontrivial += 1
+    for k in (1, 2):
+        if outs[k] != outs[0]:
+            i = next((i for i, (a, b) in enumerate(zip(outs[0], outs[k])) if a != b), min(len(outs[0]), len(outs[k])))
+            a, b = outs[0][i].split("\t"), outs[k][i].split("\t")
+            cols = [j for j, (x, y) in enumerate(zip(a, b)) if x != y]
+            r.violation("heap-history|%s" % prog, "record %d differs between two runs of the same command in one process (columns %r): %r vs %r" % (
+                i, cols, [a[j][:80] for j in cols[:2]], [b[j][:80] for j in cols[:2]]), payload)
+            break
+    r.outcome((prog, len(outs[0])))
+    r.sample({"allocator_history": "3 garbage patterns", "program": prog, "report": "all optional fields"}, cap=1)
+    return r
 
 
 # --------------------------------------------------------------------------- 1. schedules and faults
